@@ -137,7 +137,8 @@ structure Frag where
   raw : List Char
   deriving Repr, DecidableEq
 
-/-- the `<…>` loop; `pos` counts bytes.  Result: position of the closing `>` -/
+/-- the `<…>` loop; `pos` counts bytes.  Result: position of the closing `>`.
+    (A line feed is rejected also directly after a backslash.) -/
 def angleLoop : List Char → Nat → Option Nat
   | [], _ => none
   | c :: cs, pos =>
@@ -146,14 +147,15 @@ def angleLoop : List Char → Nat → Option Nat
     else if c = '\\' then
       match cs with
       | [] => none
-      | x :: cs' => angleLoop cs' (pos + 1 + clen x)
+      | x :: cs' => if x = '\n' then none else angleLoop cs' (pos + 1 + clen x)
     else angleLoop cs (pos + clen c)
 
 /-- `'\0'..=' ' | '\x7f'` -/
 def isBareStop (c : Char) : Bool := c.toNat ≤ 32 || c.toNat == 127
 
 /-- the bare-destination loop.  `none` = `return None` (more than 32 open parentheses);
-    `some (pos, level)` = `break` with these values -/
+    `some (pos, level)` = `break` with these values.  A backslash does not escape a blank or a
+    control character: the destination then ends BEFORE the backslash. -/
 def bareLoop : List Char → Nat → Nat → Option (Nat × Nat)
   | [], pos, level => some (pos, level)
   | c :: cs, pos, level =>
@@ -162,7 +164,7 @@ def bareLoop : List Char → Nat → Nat → Option (Nat × Nat)
       match cs with
       | [] => some (pos, level)
       | x :: cs' =>
-        if x = ' ' then some (pos, level) else bareLoop cs' (pos + 1 + clen x) level
+        if isBareStop x then some (pos, level) else bareLoop cs' (pos + 1 + clen x) level
     else if c = '(' then
       if level + 1 > 32 then none else bareLoop cs (pos + 1) (level + 1)
     else if c = ')' then
@@ -196,8 +198,8 @@ def parseLinkDestination (str : List Char) (start max : Nat) : Except Panic (Opt
 def titleMarker (c : Char) : Option Char :=
   if c = '"' then some '"' else if c = '\'' then some '\'' else if c = '(' then some ')' else none
 
-/-- the title loop.  Result: position of the closing marker and the line-break count.
-    (A line break hidden behind a backslash is skipped by the `\\` arm and NOT counted.) -/
+/-- the title loop.  Result: position of the closing marker and the line-break count
+    (a line feed directly after a backslash is counted too). -/
 def titleLoop (marker : Char) : List Char → Nat → Nat → Option (Nat × Nat)
   | [], _, _ => none
   | c :: cs, pos, lines =>
@@ -207,8 +209,23 @@ def titleLoop (marker : Char) : List Char → Nat → Nat → Option (Nat × Nat
     else if c = '\\' then
       match cs with
       | [] => none
-      | x :: cs' => titleLoop marker cs' (pos + 1 + clen x) lines
+      | x :: cs' =>
+        titleLoop marker cs' (pos + 1 + clen x) (if x = '\n' then lines + 1 else lines)
     else titleLoop marker cs (pos + clen c) lines
+
+/-- the title loop as it was BEFORE commit 5a0c4fb (kept only as a negation witness,
+    `Props/C04.lean`): a line feed hidden behind a backslash was skipped without being counted -/
+def titleLoopPinned (marker : Char) : List Char → Nat → Nat → Option (Nat × Nat)
+  | [], _, _ => none
+  | c :: cs, pos, lines =>
+    if c = marker then some (pos, lines)
+    else if c = '(' ∧ marker = ')' then none
+    else if c = '\n' then titleLoopPinned marker cs (pos + 1) (lines + 1)
+    else if c = '\\' then
+      match cs with
+      | [] => none
+      | x :: cs' => titleLoopPinned marker cs' (pos + 1 + clen x) lines
+    else titleLoopPinned marker cs (pos + clen c) lines
 
 /-- `parse_link_title(str, start, max)` -/
 def parseLinkTitle (str : List Char) (start max : Nat) : Except Panic (Option Frag) :=
